@@ -5,3 +5,5 @@ go 1.25.4
 require compiler v0.0.0
 
 replace compiler => /repo
+
+require github.com/anishathalye/porcupine v1.3.0
